@@ -196,30 +196,35 @@ Print Assumptions count_monotone.
        allocation failure before the write-back - returns the state it was given: measurements,
        equations, counters, previous calibration and every parameter value. *)
 Theorem failed_solve_unchanged (o : oracle) (af : afault) (st : state) :
-  wb_fault af = false -> snd (solve o af st) <> Ok -> fst (solve o af st) = st.
-Proof. exact (solve_fail_unchanged o af st). Qed.
+  snd (solve o af st) <> Ok -> fst (solve o af st) = st.
+Proof. exact (solve_fail_unchanged_all o af st). Qed.
 Print Assumptions failed_solve_unchanged.
+(* (since fix DI92 without the premise `wb_fault af = false`: the write-back allocates every new frequency vector in a first
+   loop and commits in a second loop that cannot fail, so an allocation failure INSIDE the write-back also leaves every
+   parameter as it was; the injected failure `FaultWriteback j` is the j-th calloc of that first loop) *)
 
-(* 3b. Without the premise this is false of the code (and of the model): when the calloc of the second
-       unknown parameter's frequency vector fails, the first parameter already holds the new solution
-       and the second has lost its vectors, although the solve reports failure (ENOMEM). *)
+(* 3b. model_variant_before_DI92 (solve_before_DI92: the parameters written one by one): there the statement was false
+       without the premise `wb_fault af = false` - when the calloc of the second unknown parameter's frequency vector failed, the
+       first parameter already held the new solution and the second had lost its vectors, although the solve reported ENOMEM. *)
 Definition cf_t8_11_unk2 := {| cf_ty := T8; cf_r := 1; cf_c := 1; cf_kinds := [(3, PUnknown); (4, PUnknown)] |}.
 Definition st_two_unknowns :=
   run_adds (init cf_t8_11_unk2 1 true)
     [single_reflect 1 1 2 1; single_reflect 1 1 1 1; single_reflect 1 1 0 1; single_reflect 1 1 3 1;
      single_reflect 1 1 4 1].
 
-Theorem failed_solve_unchanged_refuted_for_writeback_fault :
+Theorem failed_solve_unchanged_refuted_for_writeback_fault_before_DI92 :
   exists (o : oracle) (af : afault) (st : state),
-    snd (solve o af st) = Err ENOMEM /\ fst (solve o af st) <> st /\
-    pv_get (st_pv (fst (solve o af st))) 3 = {| pv_freqs := 1; pv_gamma := Some (st_meas st) |} /\
-    pv_get (st_pv st) 3 = pv_init.
+    snd (solve_before_DI92 o af st) = Err ENOMEM /\ fst (solve_before_DI92 o af st) <> st /\
+    pv_get (st_pv (fst (solve_before_DI92 o af st))) 3 = {| pv_freqs := 1; pv_gamma := Some (st_meas st) |} /\
+    pv_get (st_pv st) 3 = pv_init /\
+    solve o af st = (st, Err ENOMEM).
 Proof.
   exists (fun _ _ _ => true), (FaultWriteback 1), st_two_unknowns.
-  split; [reflexivity |]. split; [| split; reflexivity].
-  intros E. apply (f_equal st_pv) in E. vm_compute in E. discriminate.
+  split; [reflexivity |]. split; [| split; [reflexivity | split; [reflexivity |]]].
+  - intros E. apply (f_equal st_pv) in E. vm_compute in E. discriminate.
+  - vm_compute. reflexivity.
 Qed.
-Print Assumptions failed_solve_unchanged_refuted_for_writeback_fault.
+Print Assumptions failed_solve_unchanged_refuted_for_writeback_fault_before_DI92.
 
 (* 3c. What EVERY failing solve keeps, that one included: the standards, equations and counters, the
        previous calibration, and the value of every parameter that is not an unknown of this
